@@ -113,6 +113,11 @@ theorem sum_add_map {α : Type} (f g : α → ℤ) (l : List α) :
   | nil => simp
   | cons a l ih => simp only [List.map_cons, List.sum_cons, ih]; ring
 
+/-- the primitive `MEx.binarize` of this IR is the cell function of `binarize` as tied in family `util`
+(`Thresh.binarize W = W.map fun w => if w ≠ 0 then 1 else w`; the generated file carries `binarize`'s own obligation) -/
+theorem bin_rat (q : ℚ) : V.bin (.rat q) = .rat (if q ≠ 0 then 1 else q) := rfl
+theorem bin_int (z : ℤ) : V.bin (.int z) = .int (if z ≠ 0 then 1 else z) := rfl
+
 /-! ### the helpers -/
 
 theorem helper_degrees_und (M : AMat ℤ n) :
@@ -354,9 +359,9 @@ def kcoreResult (p : Bool) (out : Out ℤ n) : List (Obj n) :=
   if p then [.mat (embI out.M), .nat out.kn, .list (out.order.map .idxs), .list (out.level.map .levels)]
   else [.mat (embI out.M), .nat out.kn]
 
-theorem run_kcore (name : String) (call : Stmt) (deg : AMat ℤ n → Fin n → ℕ) (hc : CallOk (n := n) call deg)
+theorem run_kcore (name helper : String) (call : Stmt) (deg : AMat ℤ n → Fin n → ℕ) (hc : CallOk (n := n) call deg)
     (fuel : ℕ) (A : AMat ℤ n) (k : ℕ) (p : Bool) :
-    runPeel refHelpers (refKcore name call) fuel [.mat (embI A), .scal (.int k), .flag p] =
+    runPeel refHelpers (refKcore name call helper) fuel [.mat (embI A), .scal (.int k), .flag p] =
       (peelLoopOpt 0 deg (smallNat k) posNat fuel A 0 [] []).map (kcoreResult p) := by
   obtain ⟨E1, e1, st1⟩ := kcore_pre (((Env.set (fun _ => none) "CIJ" (.mat (embI A))).set "k" (.scal (.int k))).set "peel" (.flag p))
     A k p (by simp [Env.set]) (by simp [Env.set]) (by simp [Env.set])
@@ -489,7 +494,7 @@ theorem link_kcore_bu (hs : List Helper) (hhs : helpersOk hs = true) (ir : PeelI
       (peelLoopOpt 0 degBu (smallNat k) posNat fuel A 0 [] []).map (kcoreResult p) := by
   rw [helpers_of_ok hs hhs]
   rcases ir_of_peelOk ir hok with h | h | h <;> subst h
-  · exact run_kcore _ _ degBu callOk_bu fuel A k p
+  · exact run_kcore _ _ _ degBu callOk_bu fuel A k p
   · exact absurd hname (by decide)
   · exact absurd hname (by decide)
 
@@ -501,7 +506,7 @@ theorem link_kcore_bd (hs : List Helper) (hhs : helpersOk hs = true) (ir : PeelI
   rw [helpers_of_ok hs hhs]
   rcases ir_of_peelOk ir hok with h | h | h <;> subst h
   · exact absurd hname (by decide)
-  · exact run_kcore _ _ degBd callOk_bd fuel A k p
+  · exact run_kcore _ _ _ degBd callOk_bd fuel A k p
   · exact absurd hname (by decide)
 
 /-- **Link, `score_wu`** (exact rational weights and level). -/
